@@ -888,8 +888,67 @@ Proof.
   exists "k". split; vm_compute; reflexivity.
 Qed.
 
+(* ---- the ordering monitor: the property as an executable test on an observed pull ----
+   (the harness evaluates the same test on the implementation's observed states: its
+   orderMonitor; here: it is quiet on every pull of the model under the invariant) *)
+Definition okey_eqb (a b : option str) : bool :=
+  match a, b with Some x, Some y => String.eqb x y | _, _ => false end.
+
+(* the (handed-out, overtaken) pairs of a pull response [ps] on state [st], judged at time [t] *)
+Definition overtaken (st : state) (t : time) (sid : id) (ps : list pulled) : list (id * id) :=
+  flat_map (fun p =>
+    match get_del st (p_ack p) with
+    | Some d =>
+        map (fun d0 => (d_id d, d_id d0))
+            (filter (fun d0 => N.eqb (d_sub d0) sid && N.eqb (d_sub d) sid && active t d0 &&
+                               (d_published d0 <? d_published d) && okey_eqb (key_of st d0) (key_of st d))
+                    (dels st))
+    | None => []
+    end) ps.
+
+Lemma flat_map_nil' {A B} (f : A -> list B) l : (forall x, In x l -> f x = []) -> flat_map f l = [].
+Proof.
+  induction l as [|x l IH]; cbn [flat_map]; intros H; [reflexivity|].
+  rewrite (H x (or_introl eq_refl)). cbn [app]. apply IH. intros y Hy. apply H. right; exact Hy.
+Qed.
+
+Lemma okey_eqb_true a b : okey_eqb a b = true -> exists k, a = Some k /\ b = Some k.
+Proof.
+  destruct a as [x|], b as [y|]; cbn; try discriminate. intros H. apply String.eqb_eq in H. subst. eauto.
+Qed.
+
+Lemma active_earlier now t d : now <= t -> active t d = true -> active now d = true.
+Proof.
+  unfold active. intros Hle H. apply andb_true_iff in H. destruct H as [H1 H2].
+  rewrite H1. apply Z.ltb_lt in H2. cbn [andb]. apply Z.ltb_lt. lia.
+Qed.
+
+Theorem order_monitor_quiet st now t name max returned others w fz fr s :
+  ids_unique st -> legal st now (Pull name max returned others w fz fr) ->
+  find_live_sub st name = Some s -> s_ordered s = true -> order_inv st now (s_id s) -> now <= t ->
+  overtaken st t (s_id s) (pulled_of (answer st now (Pull name max returned others w fz fr))) = [].
+Proof.
+  intros Hu Hl Hf Ho Hinv Hle. unfold overtaken.
+  apply flat_map_nil'. intros p Hp.
+  destruct (get_del st (p_ack p)) as [d|] eqn:Hg; [|reflexivity].
+  unfold get_del in Hg. apply find_id_In in Hg. destruct Hg as [Hd Hid].
+  destruct (filter _ (dels st)) as [|d0 r] eqn:Hfil; [reflexivity|exfalso].
+  assert (Hin : In d0 (filter (fun d0 => N.eqb (d_sub d0) (s_id s) && N.eqb (d_sub d) (s_id s) && active t d0 &&
+                                           (d_published d0 <? d_published d) && okey_eqb (key_of st d0) (key_of st d)) (dels st)))
+    by (rewrite Hfil; left; reflexivity).
+  apply filter_In in Hin. destruct Hin as [Hd0 Hc].
+  repeat (apply andb_true_iff in Hc; let H := fresh "C" in destruct Hc as [Hc H]).
+  apply N.eqb_eq in Hc. apply N.eqb_eq in C2. apply Z.ltb_lt in C0.
+  destruct (okey_eqb_true _ _ C) as [k [K0 K]].
+  assert (He : earlier_same_key st d0 d).
+  { split; [congruence|]. split; [exists k; split; assumption|exact C0]. }
+  pose proof (C05_no_overtake_step st now name max returned others w fz fr s p d d0 Hu Hl Hf Ho Hinv Hp Hd Hid Hd0 He) as Hn.
+  rewrite (active_earlier now t d0 Hle C1) in Hn. discriminate.
+Qed.
+
 Print Assumptions order_inv_blocks.
 Print Assumptions order_inv_step.
 Print Assumptions C05_no_overtake_step.
 Print Assumptions C05_no_overtake.
 Print Assumptions C05_seek_revival_refuted.
+Print Assumptions order_monitor_quiet.
